@@ -67,7 +67,10 @@ def common(run, modules):
 
 
 def corpus(pid, kind):
-    return sorted(glob.glob(os.path.join(R.VERIF, "corpus", kind, "*.txt")))
+    """minimised past failures and boundary sequences, run before the generated ones; `x.only-Cnn.txt` runs for
+    that property only"""
+    fs = sorted(glob.glob(os.path.join(R.VERIF, "corpus", kind, "*.txt")))
+    return [f for f in fs if ".only-" not in os.path.basename(f) or (".only-%s." % pid) in os.path.basename(f)]
 
 
 def seq_cache_runs(run, harness, twins=("cache", "cacheof"), quick=(1200, 40), thorough=(40000, 60)):
@@ -149,6 +152,15 @@ def trace_runs(run, h, kinds, quick=(60, 4), thorough=(1500, 6)):
         for focus in ("", "racers", "reader"):
             args = ["kind=" + kind, "seed=%d" % (run.seed + 50), "nprog=%d" % nprog, "nsched=%d" % nsched] + (["focus=" + focus] if focus else [])
             R.trace_correspondence(run, h, "trace_%s_%s" % (kind, focus or "mix"), args)
+
+
+def trace_cache_runs(run, h, quick=(60, 4), thorough=(1500, 6), focuses=("", "lazy", "racers")):
+    """M5 <-> real cache layer at the granularity of M5 (one step per map call / clock read / setting access)"""
+    nprog, nsched = Q(run, quick, thorough)
+    for kind in ("cache", "cacheof"):
+        for focus in focuses:
+            args = ["kind=" + kind, "seed=%d" % (run.seed + 70), "nprog=%d" % nprog, "nsched=%d" % nsched] + (["focus=" + focus] if focus else [])
+            R.trace_correspondence(run, h, "tracem5_%s_%s" % (kind, focus or "mix"), args, flag="--trace-cache", model="Model.ConcCache (M5)")
 
 
 def c03(run):
